@@ -362,7 +362,7 @@ func runC05(p *Prog, r *Report, tier string) {
 	r.check(sameSet(cs, []string{"(keeper.msgServer).ReplaceDepositForBurn"}), "CG-callers", "CG-callers/ReplaceMessage", "", fmt.Sprintf("in-module callers = %v", cs), fmt.Sprintf("in-module callers of ReplaceMessage are %v", cs))
 	var sentSites []string
 	for _, fn := range p.Funcs {
-		for _, e := range p.effects(fn).direct {
+		for _, e := range p.own(fn) {
 			if e.Kind == "EVENT" && e.Region == "*types.MessageSent" {
 				sentSites = append(sentSites, funcName(fn))
 			}
@@ -541,7 +541,7 @@ func runC07(p *Prog, r *Report, tier string) {
 	res := p.Func("keeper.Keeper.ReserveAndIncrementNonce")
 	if c := p.fc(r, res, "ReserveAndIncrementNonce", [][2]string{{"GET", get}}); c != nil {
 		var rd, wr []Effect
-		for _, e := range p.effects(res).direct {
+		for _, e := range p.own(res) {
 			switch e.Kind {
 			case "R":
 				rd = append(rd, e)
@@ -983,7 +983,7 @@ func runC14(p *Prog, r *Report, tier string) {
 	// it returns the emission's error itself, or returns nil only behind `emit error == nil`
 	if c := p.fc(r, p.Func("keeper.msgServer.depositForBurn"), "depositForBurn", nil); c != nil {
 		var emits []*ssa.Call
-		for _, e := range p.effects(c.fn).direct {
+		for _, e := range p.own(c.fn) {
 			if call, ok := e.In.(*ssa.Call); ok && e.Kind == "EVENT" {
 				emits = append(emits, call)
 			}
